@@ -546,7 +546,7 @@ pub fn check(cfg: &RunCfg, _findings: &Findings) -> Report {
     cfg,
     "C06-product-sweep",
     16,
-    if quick { 96 } else { 1_600 },
+    if quick { 400 } else { 1_600 },
     48,
     300,
     150,
@@ -558,7 +558,9 @@ pub fn check(cfg: &RunCfg, _findings: &Findings) -> Report {
         3 => Family::Tagged,
         _ => Family::Siblings,
       };
-      loaded(gen_family(src, fam, &LayoutOpts { allow_absorbing: true, max_alphabet: if quick { 5 } else { 6 } }))
+      // quick: five keys, one sweep in four six (thorough: always six)
+      let alpha = if quick && !src.chance(25) { 5 } else { 6 };
+      loaded(gen_family(src, fam, &LayoutOpts { allow_absorbing: true, max_alphabet: alpha }))
     },
     |g: &Option<GenLayout>, stats: &mut Stats| {
       let g = match g {
